@@ -216,7 +216,13 @@ def solver_case(rep, rng, dev, kind, screening, ci, mode=None):
             # screening together with a seed solution that carries a non-zero induced potential
             sopts = runs.make_options(td, solve_time=0.08, dt_init=1e-2, dt_max=1e-2, adaptive=False, save_every=50,
                                       include_screening=True, screening_tolerance=1e-2, output_file=td + "/seed.h5")
-            seed_sol, _ = runs.traced_solve(dev, sopts, A=0.4, currents={"source": 0.5, "drain": -0.5} if len(dev.terminals) >= 2 else None)
+            try:
+                seed_sol, _ = runs.traced_solve(dev, sopts, A=0.4, currents={"source": 0.5, "drain": -0.5} if len(dev.terminals) >= 2 else None)
+            except RuntimeError as e:
+                if "Screening calculation failed to converge" not in str(e):
+                    raise
+                rep.coverage["screening_runs_that_failed_to_converge"] = rep.coverage.get("screening_runs_that_failed_to_converge", 0) + 1
+                return [], [], {}
         opts = runs.make_options(td, solve_time=1.2 if not screening else 0.3, dt_init=1e-2, dt_max=1e-2,
                                  adaptive=False, save_every=50, include_screening=screening,
                                  screening_tolerance=1e-2, **extra)
@@ -228,8 +234,14 @@ def solver_case(rep, rng, dev, kind, screening, ci, mode=None):
         def between(solver, k):
             solver.options.solve_time = 0.45
 
-        runs.traced_solve(dev, opts, A=A, currents=cur, on_step=on_step, before_step=before, resolve=again, between=between,
-                          seed_solution=seed_sol)
+        try:
+            runs.traced_solve(dev, opts, A=A, currents=cur, on_step=on_step, before_step=before, resolve=again, between=between,
+                              seed_solution=seed_sol)
+        except RuntimeError as e:
+            # failing to converge is an allowed outcome of a screening run (C13); the steps taken until then were checked
+            if "Screening calculation failed to converge" not in str(e):
+                raise
+            rep.coverage["screening_runs_that_failed_to_converge"] = rep.coverage.get("screening_runs_that_failed_to_converge", 0) + 1
     case = {"run": ci, "drive": kind, "screening": screening, "steps": len(cur_ids) or None, "solved_again": again, "with": mode}
     if scr_stale:
         rep.violation("stale operators inside a screening step: an Euler update ran with link exponents that are not (applied + "
